@@ -2,6 +2,7 @@ package main
 
 // C11: strings and tables the scalar-helper model and theorems depend on.
 //   pkg/expressions/stdlib/errors.go   ErrorNum, ErrorArgCount, ErrorConst, ErrorValue   (run-time error markers)
+//   pkg/expressions/stdlib/funcsArithmatic.go  maxPrecision
 //   pkg/expressions/truthy.go          TruthyVal, FalsyVal
 //   pkg/expressions/stage.go           ArraySeparator
 //   pkg/humanize/numeric.go            baseSeparator, decimalSeparator
@@ -121,6 +122,8 @@ func init() {
 		for _, n := range []string{"ErrorNum", "ErrorArgCount", "ErrorConst", "ErrorValue"} {
 			g.def(n, "list N", coqBytes(strConst(errs, n)), errs)
 		}
+		g.def("maxPrecision", "Z", coqZ(intConst("pkg/expressions/stdlib/funcsArithmatic.go", "maxPrecision")),
+			"pkg/expressions/stdlib/funcsArithmatic.go: largest accepted precision argument of round/percent/bytesize/bytesizesi/downscale")
 		const tr = "pkg/expressions/truthy.go"
 		g.def("TruthyVal", "list N", coqBytes(strConst(tr, "TruthyVal")), tr)
 		g.def("FalsyVal", "list N", coqBytes(strConst(tr, "FalsyVal")), tr)
